@@ -1,3 +1,447 @@
-import Pyiga.Model.Geometry
+/-
+Property C07 — geometry maps evaluate consistently on every route and constructions are exact.
+Property theorems only (helper lemmas: Proofs/Jet.lean, Proofs/Geometry.lean).
+
+Everything is stated over an arbitrary field `K`, for every number of source dimensions
+(lists of axes of any length), every number of basis functions per axis and every target
+dimension.  The 1-D B-spline values are inputs (`Info` rows / dense rows); the facts used
+about them are named hypotheses: `Fits` (active window inside the basis), `PU` (partition of
+unity at the evaluation point), a unit row at an interpolatory end — these are C02's theorems.
+-/
+import Pyiga.Proofs.Geometry
+import Mathlib.Tactic.NormNum
+import Mathlib.Algebra.Field.Rat
+
 namespace Pyiga.Props.C07
+open Pyiga.Geo Pyiga.Jet
+
+variable {K : Type} [Field K]
+
+/-! ## 1. NURBS = quotient in the second-order jet algebra -/
+
+/-- every jet with non-zero value is a unit of the jet algebra -/
+theorem jet_mul_inv (b : Jet K) (hb : b.v ≠ 0) : Jet.mul b (Jet.inv b) = Jet.const 1 :=
+  mul_inv_cancel' b hb
+
+/-- `(a / b) * b = a`: the jet quotient is the jet of the quotient -/
+theorem jet_div_mul_cancel (a b : Jet K) (hb : b.v ≠ 0) : Jet.mul (Jet.div a b) b = a :=
+  div_mul_cancel' a b hb
+
+/-- … and it is the only jet `q` with `q * W = V` -/
+theorem nurbs_jet_unique (q V W : Jet K) (hW : W.v ≠ 0) (h : Jet.mul q W = V) : q = Jet.div V W :=
+  eq_div_of_mul_eq q V W hW h
+
+/-- gradient of a jet in the library's Jacobian-row layout (`n` columns) -/
+def packG (n : Nat) (J : Jet K) : List K := (List.range n).map J.g
+
+/-- Hessian of a jet in the library's packed layout (`np.triu_indices(n)` order) -/
+def packH (n : Nat) (J : Jet K) : List K := (triu n).map (fun p => J.h p.1 p.2)
+
+theorem packG_getD (n : Nat) (J : Jet K) (b : Nat) (hb : b < n) : (packG n J).getD b 0 = J.g b := by
+  simp [packG, List.getD_eq_getElem?_getD, hb]
+
+/-- **nurbs_jet.**  Feed `geometry._nurbs_jacobian` / `NurbsFunc.grid_hessian` with the
+values, Jacobian rows and packed Hessians of the numerator splines `V₁…V_d` and of the weight
+spline `W` (any number `n` of source dimensions, any `d`): the outputs are exactly the values,
+Jacobian rows and packed Hessians of the jet quotients `Vᵢ / W`. -/
+theorem nurbs_jet (n : Nat) (Vs : List (Jet K)) (W : Jet K) (hW : W.v ≠ 0) :
+    nurbsValue (Vs.map (·.v) ++ [W.v]) = Vs.map (fun V => (Jet.div V W).v) ∧
+    nurbsJacobian (Vs.map (·.v) ++ [W.v]) (Vs.map (packG n) ++ [packG n W])
+      = Vs.map (fun V => packG n (Jet.div V W)) ∧
+    nurbsHessian n (Vs.map (·.v) ++ [W.v]) (Vs.map (packG n) ++ [packG n W])
+        (Vs.map (packH n) ++ [packH n W])
+      = Vs.map (fun V => packH n (Jet.div V W)) := by
+  have hJ : nurbsJacobian (Vs.map (·.v) ++ [W.v]) (Vs.map (packG n) ++ [packG n W])
+      = Vs.map (fun V => packG n (Jet.div V W)) := by
+    simp only [nurbsJacobian, List.getLastD_concat, List.dropLast_concat, List.zip_map', List.map_map]
+    apply List.map_congr_left
+    intro V _
+    simp only [Function.comp, packG, List.zip_map', List.map_map]
+    apply List.map_congr_left
+    intro m _
+    simp only [Function.comp]
+    rw [div_g V W hW]
+  refine ⟨?_, hJ, ?_⟩
+  · simp only [nurbsValue, List.getLastD_concat, List.dropLast_concat, List.map_map]
+    apply List.map_congr_left
+    intro V _
+    simp only [Function.comp, div_v]
+  · unfold nurbsHessian
+    simp only []
+    rw [hJ]
+    simp only [List.getLastD_concat, List.dropLast_concat, List.zip_map', List.map_map]
+    apply List.map_congr_left
+    intro V _
+    simp only [Function.comp, packH]
+    have hz : (triu n).zip (List.map (fun a => (V.h a.1 a.2, W.h a.1 a.2)) (triu n))
+        = (triu n).map (fun a => (a, (V.h a.1 a.2, W.h a.1 a.2))) := by
+      conv_lhs => lhs; rw [← List.map_id (triu n)]
+      rw [List.zip_map']
+      simp
+    rw [List.zip_map', hz, List.map_map]
+    apply List.map_congr_left
+    intro p hp
+    obtain ⟨ha, hb⟩ := mem_triu hp
+    simp only [Function.comp]
+    rw [packG_getD n (Jet.div V W) p.2 hb, packG_getD n (Jet.div V W) p.1 ha, packG_getD n W p.1 ha,
+      packG_getD n W p.2 hb]
+    simp only [Jet.div, Jet.mul, Jet.inv]
+    field_simp
+    ring
+
+/-- the order in which `BSplineFunc.grid_hessian` fills its last axis
+(`for i in reversed(range(sdim)): for j in reversed(range(i+1))`) is `np.triu_indices(sdim)`
+in the x-first variable numbering `a = sdim-1-i` — the order `NurbsFunc.grid_hessian` assumes
+when it linearises `mat[..., I, J]` — for every `sdim`. -/
+theorem hess_packing (n : Nat) :
+    (hessPairs n).map (fun p => (n - 1 - p.1, n - 1 - p.2)) = triu n := hessPairs_eq_triu n
+
+example : triu 3 = [(0,0),(0,1),(0,2),(1,1),(1,2),(2,2)] := by decide
+example : hessPairs 2 = [(1,1),(1,0),(0,0)] := by decide
+
+/-! ## 2. all evaluation routes denote the same tensor-product sum -/
+
+/-- a sum over the whole basis against a CSR row that is zero outside the active window is
+the sum over the window (grid route vs. scattered route, one axis) -/
+theorem window_eq_dense (n first m : Nat) (w g : Nat → K) (h : first + m ≤ n) :
+    sumTo n (fun i => (if first ≤ i ∧ i < first + m then w (i - first) else 0) * g i)
+      = sumTo m (fun l => w l * g (first + l)) := sumTo_window n first m w g h
+
+/-- `XY[sdim-1-d]` is the reversal of the point's coordinate list for every `sdim` -/
+theorem axis_map_is_reversal {X : Type} [Inhabited X] (pts : List X) : axisMap pts = pts.reverse :=
+  axisMap_eq_reverse pts
+
+/-- **routes_agree.**  For every source dimension (any list of axes), every derivative
+pattern `D` and every component `j`: scattered evaluation at the point `pts` (xyz order),
+single-point evaluation `f(*pts)` and grid evaluation at the node with coordinates
+`reverse pts` (zyx order) are the same nested sum `Σ_I c_I Π_k N_{I_k}` (`contract`). -/
+theorem routes_agree {X : Type} [Inhabited X] (S : Spl K) (B : Nat → X → Info K) (pts : List X)
+    (D : List Nat) (j : Nat) (h : Fits B 0 S.dims pts.reverse) :
+    S.pwD B pts D j = S.gridD B pts.reverse D j ∧
+    S.pwVal B pts j = S.gridVal B pts.reverse j ∧
+    S.call B pts j = S.gridVal B pts.reverse j := by
+  have key : ∀ D, S.pwD B pts D j = S.gridD B pts.reverse D j := by
+    intro D
+    unfold Spl.pwD Spl.gridD
+    rw [axisMap_eq_reverse]
+    exact contractWin_eq_contract B S.c S.ncomp j S.dims pts.reverse D 0 0 h
+  exact ⟨key D, key _, rfl⟩
+
+/-- the Jacobian row written by slot assignment `result[..., sdim-i-1]` (scattered routes)
+is the row stacked from `reversed(range(sdim))` (grid route), for every `sdim` -/
+theorem jac_columns_agree {X : Type} [Inhabited X] (S : Spl K) (B : Nat → X → Info K) (pts : List X)
+    (j : Nat) (h : Fits B 0 S.dims pts.reverse) :
+    S.pwJacRow B pts j = S.gridJacRow B pts.reverse j := by
+  unfold Spl.pwJacRow Spl.gridJacRow
+  rw [slotAssign_eq]
+  apply List.map_congr_left
+  intro i _
+  exact (routes_agree S B pts (unitD S.sdim i) j h).1
+
+/-- column `m` of a Jacobian row is the derivative along coefficient axis `sdim-1-m`
+(x first) -/
+theorem jac_column_meaning {X : Type} (S : Spl K) (B : Nat → X → Info K) (ys : List X) (j m : Nat)
+    (hm : m < S.sdim) :
+    (S.gridJacRow B ys j)[m]? = some (S.gridD B ys (unitD S.sdim (S.sdim - 1 - m)) j) := by
+  unfold Spl.gridJacRow
+  rw [List.getElem?_map, List.getElem?_reverse (by simpa using hm), List.length_range,
+    List.getElem?_range (by omega)]
+  rfl
+
+/-! ## 3. constructor laws (linearity + partition of unity) -/
+
+/-- `translate` of a B-spline function adds the offset to the *map* (needs partition of unity). -/
+theorem translate_bspline (c c' off : Nat → K) (nc m : Nat) (hm : m ∣ nc)
+    (hc : ∀ i, c' i = c i + off (i % m)) (rows : List (Nat × (Nat → K))) (hpu : PU rows) (j : Nat) :
+    contract c' nc j rows 0 = contract c nc j rows 0 + off (j % m) := by
+  rw [contract_eq_nest, contract_eq_nest]
+  have : ∀ k, c' (k * nc + j) = c (k * nc + j) + off (j % m) := by
+    intro k
+    rw [hc]
+    obtain ⟨t, rfl⟩ := hm
+    congr 2
+    rw [show k * (m * t) + j = m * (k * t) + j by ring, Nat.mul_add_mod]
+  rw [nest_congr this, nest_add, nest_const _ _ _ hpu]
+
+/-- `NurbsFunc.translate` (`C, W = coeffs_weights(); NurbsFunc(kvs, C + offset, W)`, i.e.
+divide by the weights, add, premultiply again) adds the offset to the NURBS map; no
+partition of unity is needed, only non-zero control weights and a non-zero weight function. -/
+theorem translate_nurbs (c c' : Nat → K) (nc l : Nat) (off : Nat → K) (b : Nat)
+    (hb : ∀ k, c' (k * nc + b) = (c (k * nc + b) / c (k * nc + l) + off b) * c (k * nc + l))
+    (hl : ∀ k, c' (k * nc + l) = c (k * nc + l))
+    (hw : ∀ k, c (k * nc + l) ≠ 0)
+    (rows : List (Nat × (Nat → K))) (hW : contract c nc l rows 0 ≠ 0) :
+    contract c' nc b rows 0 / contract c' nc l rows 0
+      = contract c nc b rows 0 / contract c nc l rows 0 + off b := by
+  simp only [contract_eq_nest] at *
+  have h1 : ∀ k, c' (k * nc + b) = c (k * nc + b) + off b * c (k * nc + l) := by
+    intro k; rw [hb]; have := hw k; field_simp
+  rw [nest_congr h1, nest_congr hl, nest_add, nest_smul]
+  field_simp
+
+/-- `scale` (scalar or per-component factor) acts pointwise on the map -/
+theorem scale_pointwise (c c' fac : Nat → K) (nc m : Nat) (hm : m ∣ nc)
+    (hc : ∀ i, c' i = c i * fac (i % m)) (rows : List (Nat × (Nat → K))) (j : Nat) :
+    contract c' nc j rows 0 = contract c nc j rows 0 * fac (j % m) := by
+  rw [contract_eq_nest, contract_eq_nest]
+  have : ∀ k, c' (k * nc + j) = c (k * nc + j) * fac (j % m) := by
+    intro k
+    rw [hc]
+    obtain ⟨t, rfl⟩ := hm
+    congr 2
+    rw [show k * (m * t) + j = m * (k * t) + j by ring, Nat.mul_add_mod]
+  rw [nest_congr this, nest_mul_right]
+
+/-- `apply_matrix(A)` (one `r × m` matrix for all control points): the map is multiplied by `A` -/
+theorem apply_matrix_pointwise (c c' : Nat → K) (A : Nat → Nat → K) (r m : Nat)
+    (hc : ∀ k a, c' (k * r + a) = sumTo m (fun b => A a b * c (k * m + b)))
+    (rows : List (Nat × (Nat → K))) (a : Nat) :
+    contract c' r a rows 0 = sumTo m (fun b => A a b * contract c m b rows 0) := by
+  simp only [contract_eq_nest]
+  rw [nest_congr (fun k => hc k a), nest_sumTo]
+  exact sumTo_congr (fun b _ => nest_smul _ _ _ _)
+
+/-- `rotate_2d`: `R = [[cos, -sin], [sin, cos]]` applied to every control point rotates the map -/
+theorem rotate_2d_pointwise (c c' : Nat → K) (co si : K)
+    (h0 : ∀ k, c' (k * 2 + 0) = co * c (k * 2 + 0) + (-si) * c (k * 2 + 1))
+    (h1 : ∀ k, c' (k * 2 + 1) = si * c (k * 2 + 0) + co * c (k * 2 + 1))
+    (rows : List (Nat × (Nat → K))) :
+    contract c' 2 0 rows 0 = co * contract c 2 0 rows 0 - si * contract c 2 1 rows 0 ∧
+    contract c' 2 1 rows 0 = si * contract c 2 0 rows 0 + co * contract c 2 1 rows 0 := by
+  simp only [contract_eq_nest]
+  rw [nest_congr h0, nest_congr h1, nest_add, nest_add, nest_smul, nest_smul, nest_smul, nest_smul]
+  constructor <;> ring
+
+/-- **tensor_product(G1, G2)**: `kvs = G1.kvs + G2.kvs`, `C = concatenate((C2, C1), axis=-1)`
+on the joint control grid.  The first `m2` components of the result are `G2` evaluated on its
+own axes, the remaining `m1` are `G1` on its axes: `G(x, y) = (G2(x), G1(y))` (xyz order,
+G1's axes come first in zyx order). -/
+theorem tensor_product_law (C c1 c2 : Nat → K) (m1 m2 : Nat) (r1 r2 : List (Nat × (Nat → K)))
+    (hC : ∀ k1 k2 b, k2 < size r2 → C ((k1 * size r2 + k2) * (m1 + m2) + b)
+        = if b < m2 then c2 (k2 * m2 + b) else c1 (k1 * m1 + (b - m2)))
+    (h1 : PU r1) (h2 : PU r2) (b : Nat) :
+    contract C (m1 + m2) b (r1 ++ r2) 0
+      = if b < m2 then contract c2 m2 b r2 0 else contract c1 m1 (b - m2) r1 0 := by
+  simp only [contract_eq_nest]
+  rw [nest_two _ r1 r2 (fun k1 k2 => if b < m2 then c2 (k2 * m2 + b) else c1 (k1 * m1 + (b - m2)))
+    (fun k1 k2 hk => hC k1 k2 b hk)]
+  by_cases hb : b < m2
+  · simp only [hb, if_true]
+    exact nest_const _ _ _ h1
+  · simp only [hb, if_false]
+    exact nest_congr (fun k1 => nest_const _ _ _ h2) _ _
+
+/-- **outer_sum**: `G(x, y) = G1(y) + G2(x)` (trailing components broadcast as in numpy) -/
+theorem outer_sum_law (C c1 c2 : Nat → K) (m m1 m2 : Nat) (r1 r2 : List (Nat × (Nat → K)))
+    (hC : ∀ k1 k2 b, k2 < size r2 → C ((k1 * size r2 + k2) * m + b)
+        = c1 (k1 * m1 + b % m1) + c2 (k2 * m2 + b % m2))
+    (h1 : PU r1) (h2 : PU r2) (b : Nat) :
+    contract C m b (r1 ++ r2) 0 = contract c1 m1 (b % m1) r1 0 + contract c2 m2 (b % m2) r2 0 := by
+  simp only [contract_eq_nest]
+  rw [nest_two _ r1 r2 (fun k1 k2 => c1 (k1 * m1 + b % m1) + c2 (k2 * m2 + b % m2))
+    (fun k1 k2 hk => hC k1 k2 b hk)]
+  have : ∀ k1, nest (fun k2 => c1 (k1 * m1 + b % m1) + c2 (k2 * m2 + b % m2)) r2 0
+      = c1 (k1 * m1 + b % m1) + nest (fun k2 => c2 (k2 * m2 + b % m2)) r2 0 := by
+    intro k1; rw [nest_add, nest_const _ _ _ h2]
+  rw [nest_congr this, nest_add, nest_const _ _ _ h1]
+
+/-- **outer_product**: `G(x, y) = G1(y) · G2(x)` componentwise (no partition of unity needed) -/
+theorem outer_product_law (C c1 c2 : Nat → K) (m m1 m2 : Nat) (r1 r2 : List (Nat × (Nat → K)))
+    (hC : ∀ k1 k2 b, k2 < size r2 → C ((k1 * size r2 + k2) * m + b)
+        = c1 (k1 * m1 + b % m1) * c2 (k2 * m2 + b % m2)) (b : Nat) :
+    contract C m b (r1 ++ r2) 0 = contract c1 m1 (b % m1) r1 0 * contract c2 m2 (b % m2) r2 0 := by
+  simp only [contract_eq_nest]
+  rw [nest_two _ r1 r2 (fun k1 k2 => c1 (k1 * m1 + b % m1) * c2 (k2 * m2 + b % m2))
+    (fun k1 k2 hk => hC k1 k2 b hk)]
+  rw [nest_congr (fun k1 => nest_smul _ _ _ _), nest_mul_right]
+
+/-- **outer_sum / outer_product with NURBS operands**: the library de-premultiplies, combines
+and premultiplies with the weight product `W1·W2`.  (a) the premultiplied numerator of the sum
+is `c1·w2 + w1·c2`; (b) hence the result is `N1(y) + N2(x)`; (c) for the product, `N1(y)·N2(x)`. -/
+theorem outer_nurbs_law (r1 r2 : List (Nat × (Nat → K))) (c1 w1 c2 w2 cn cp w : Nat → K)
+    (hn : ∀ k1 k2, k2 < size r2 → cn (k1 * size r2 + k2)
+        = (c1 k1 / w1 k1 + c2 k2 / w2 k2) * (w1 k1 * w2 k2))
+    (hp : ∀ k1 k2, k2 < size r2 → cp (k1 * size r2 + k2)
+        = (c1 k1 / w1 k1 * (c2 k2 / w2 k2)) * (w1 k1 * w2 k2))
+    (hw : ∀ k1 k2, k2 < size r2 → w (k1 * size r2 + k2) = w1 k1 * w2 k2)
+    (hw1 : ∀ k, w1 k ≠ 0) (hw2 : ∀ k, w2 k ≠ 0)
+    (hW1 : nest w1 r1 0 ≠ 0) (hW2 : nest w2 r2 0 ≠ 0) :
+    nest cn (r1 ++ r2) 0 / nest w (r1 ++ r2) 0 = nest c1 r1 0 / nest w1 r1 0 + nest c2 r2 0 / nest w2 r2 0 ∧
+    nest cp (r1 ++ r2) 0 / nest w (r1 ++ r2) 0 = (nest c1 r1 0 / nest w1 r1 0) * (nest c2 r2 0 / nest w2 r2 0) := by
+  have hn' : ∀ k1 k2, k2 < size r2 → cn (k1 * size r2 + k2) = c1 k1 * w2 k2 + w1 k1 * c2 k2 := by
+    intro k1 k2 hk; rw [hn k1 k2 hk]; have := hw1 k1; have := hw2 k2; field_simp
+  have hp' : ∀ k1 k2, k2 < size r2 → cp (k1 * size r2 + k2) = c1 k1 * c2 k2 := by
+    intro k1 k2 hk; rw [hp k1 k2 hk]; have := hw1 k1; have := hw2 k2; field_simp
+  have eW : nest w (r1 ++ r2) 0 = nest w1 r1 0 * nest w2 r2 0 := by
+    rw [nest_two w r1 r2 (fun k1 k2 => w1 k1 * w2 k2) hw, nest_congr (fun k1 => nest_smul _ _ _ _), nest_mul_right]
+  have eN : nest cn (r1 ++ r2) 0 = nest c1 r1 0 * nest w2 r2 0 + nest w1 r1 0 * nest c2 r2 0 := by
+    rw [nest_two cn r1 r2 (fun k1 k2 => c1 k1 * w2 k2 + w1 k1 * c2 k2) hn']
+    have : ∀ k1, nest (fun k2 => c1 k1 * w2 k2 + w1 k1 * c2 k2) r2 0
+        = c1 k1 * nest w2 r2 0 + w1 k1 * nest c2 r2 0 := by
+      intro k1; rw [nest_add, nest_smul, nest_smul]
+    rw [nest_congr this, nest_add, nest_mul_right, nest_mul_right]
+  have eP : nest cp (r1 ++ r2) 0 = nest c1 r1 0 * nest c2 r2 0 := by
+    rw [nest_two cp r1 r2 (fun k1 k2 => c1 k1 * c2 k2) hp', nest_congr (fun k1 => nest_smul _ _ _ _), nest_mul_right]
+  rw [eW, eN, eP]
+  constructor <;> field_simp
+
+/-- **as_nurbs**: weights all `1` ⇒ the NURBS is the same map (partition of unity) -/
+theorem as_nurbs_same_map (c c' : Nat → K) (m : Nat)
+    (hc : ∀ k b, c' (k * (m + 1) + b) = if b < m then c (k * m + b) * 1 else 1)
+    (rows : List (Nat × (Nat → K))) (hpu : PU rows) (b : Nat) (hb : b < m) :
+    contract c' (m + 1) b rows 0 / contract c' (m + 1) m rows 0 = contract c m b rows 0 := by
+  simp only [contract_eq_nest]
+  have h1 : ∀ k, c' (k * (m + 1) + b) = c (k * m + b) := by intro k; rw [hc, if_pos hb, mul_one]
+  have h2 : ∀ k, c' (k * (m + 1) + m) = 1 := by intro k; rw [hc, if_neg (Nat.lt_irrefl m)]
+  rw [nest_congr h1, nest_congr h2, nest_const _ _ _ hpu, div_one]
+
+/-- **`__getitem__(I)`** selects component `I` of the map -/
+theorem getitem_component (c c' : Nat → K) (m I : Nat) (hc : ∀ k, c' k = c (k * m + I))
+    (rows : List (Nat × (Nat → K))) :
+    contract c' 1 0 rows 0 = contract c m I rows 0 := by
+  simp only [contract_eq_nest]
+  exact nest_congr (fun k => by rw [hc]; simp) _ _
+
+/-- **boundary(axis, side)**: if the 1-D basis of axis `axis` is interpolatory at the fixed
+coordinate (its collocation row there is the unit vector `e_f`, `f = 0` or `n-1`), evaluating
+the full function equals evaluating the function whose coefficient array is the slice
+`coeffs[…, f, …]` (flat index map of `Geo.sliceIndex`) on the remaining axes. -/
+theorem boundary_restriction (c : Nat → K) (nc j n f : Nat) (r1 r2 : List (Nat × (Nat → K)))
+    (hf : f < n) (hj : j < nc) :
+    contract c nc j (r1 ++ (n, fun i => if i = f then (1 : K) else 0) :: r2) 0
+      = contract (fun K' => c ((K' / (size r2 * nc)) * (n * (size r2 * nc)) + f * (size r2 * nc)
+            + K' % (size r2 * nc))) nc j (r1 ++ r2) 0 := by
+  simp only [contract_eq_nest]
+  rw [nest_append, nest_append]
+  apply nest_congr
+  intro k1
+  rw [nest_unit_axis _ _ _ _ _ hf, nest_offset, nest_offset (rows := r2) (off := k1)]
+  apply nest_congr_bounded
+  intro k2 hk2
+  simp only [Nat.zero_mul, Nat.zero_add]
+  have hpos : 0 < size r2 * nc := Nat.mul_pos (by omega) (by omega)
+  have hlt : k2 * nc + j < size r2 * nc := by
+    calc k2 * nc + j < k2 * nc + nc := by omega
+      _ = (k2 + 1) * nc := by ring
+      _ ≤ size r2 * nc := Nat.mul_le_mul_right _ (by omega)
+  have e : (k1 * size r2 + k2) * nc + j = (k2 * nc + j) + k1 * (size r2 * nc) := by ring
+  rw [e, Nat.add_mul_div_right _ _ hpos, Nat.add_mul_mod_self_right, Nat.div_eq_of_lt hlt,
+    Nat.mod_eq_of_lt hlt]
+  congr 1
+  ring
+
+/-- the named-side table of `_parse_bdspec`: `left/right` fix the axis `dim-1` (the `x`
+coordinate, first call argument), `bottom/top` the axis `dim-2` (`y`), `front/back` `dim-3`
+(`z`); side `0` is the lower end.  Names that do not exist in the dimension, pairs with an
+axis outside `0..dim-1` or a side other than `0/1` are rejected. -/
+theorem bdspec_table (dim : Nat) :
+    (1 ≤ dim → parseBdspec .left dim = some (dim - 1, 0) ∧ parseBdspec .right dim = some (dim - 1, 1)) ∧
+    (2 ≤ dim → parseBdspec .bottom dim = some (dim - 2, 0) ∧ parseBdspec .top dim = some (dim - 2, 1)) ∧
+    (3 ≤ dim → parseBdspec .front dim = some (dim - 3, 0) ∧ parseBdspec .back dim = some (dim - 3, 1)) ∧
+    (dim < 2 → parseBdspec .bottom dim = none ∧ parseBdspec .top dim = none) ∧
+    (dim < 3 → parseBdspec .front dim = none ∧ parseBdspec .back dim = none) ∧
+    (∀ a s : Nat, a < dim → s < 2 → parseBdspec (.pair a s) dim = some (a, s)) ∧
+    (∀ (a : Nat) (s : Int), dim ≤ a → parseBdspec (.pair a s) dim = none) := by
+  refine ⟨?_, ?_, ?_, ?_, ?_, ?_, ?_⟩
+  · intro h; constructor <;> (simp [parseBdspec]; omega)
+  · intro h; constructor <;> (simp [parseBdspec]; omega)
+  · intro h; constructor <;> (simp [parseBdspec]; omega)
+  · intro h; constructor <;> (simp [parseBdspec]; omega)
+  · intro h; constructor <;> (simp [parseBdspec]; omega)
+  · intro a s ha hs; simp [parseBdspec]; omega
+  · intro a s ha; simp [parseBdspec]; omega
+
+/-- `_BoundaryFunction`: the argument list built by `eval` (`x.insert(len(x) - axis, fixed)`,
+xyz order), once reversed by `_BaseSplineFunc.eval`, is the grid-axis list built by
+`grid_eval` (`gridaxes.insert(axis, fixed)`, zyx order) — for every number of axes. -/
+theorem boundary_function_args {X : Type} (x : List X) (axis : Nat) (fixed : X) (h : axis ≤ x.length) :
+    (bdEvalArgs x axis fixed).reverse = bdGridArgs x.reverse axis fixed :=
+  reverse_insertIdx x axis fixed h
+
+/-! ## 4. circular arcs lie on exact circles -/
+
+/-- **one rational quadratic segment.**  Control points (premultiplied, as coded)
+`r·u`, `r·u·z`, `r·u·z²` with `u = (a,b)`, `z = (c,s)` unit vectors (complex products written
+out), weights `1, c, 1`, and any three basis values with `b1² = 4·b0·b2` (the Bernstein
+values `(1-t)², 2t(1-t), t²` satisfy this for every `t`): numerator² = `r²`·weight². -/
+theorem arc_segment_on_circle (a b c s r b0 b1 b2 : K)
+    (hu : a ^ 2 + b ^ 2 = 1) (hz : c ^ 2 + s ^ 2 = 1) (hb : b1 ^ 2 = 4 * b0 * b2) :
+    (r * (b0 * a + b1 * (a * c - b * s) + b2 * (a * (c ^ 2 - s ^ 2) - b * (2 * s * c)))) ^ 2
+      + (r * (b0 * b + b1 * (a * s + b * c) + b2 * (a * (2 * s * c) + b * (c ^ 2 - s ^ 2)))) ^ 2
+      = r ^ 2 * (b0 + b1 * c + b2) ^ 2 := by
+  linear_combination
+    (r ^ 2 * ((b0 + b1 * c + b2 * (c ^ 2 - s ^ 2)) ^ 2 + (b1 * s + b2 * (2 * s * c)) ^ 2)) * hu
+    + (r ^ 2 * (2 * b2 * (b0 + b1 * c + b2) + b2 ^ 2 * (c ^ 2 + s ^ 2 - 1))) * hz
+    + (r ^ 2 * s ^ 2) * hb
+
+/-- **arc_on_circle** (`circular_arc_3pt`): for every opening angle (only `c² + s² = 1` is
+used about `c = cos(α/2)`, `s = sin(α/2)`; `cos α = 2c² − 1`, `sin α = 2sc`), every radius and
+every parameter `t`, the coded rational quadratic satisfies `x(t)² + y(t)² = r²`. -/
+theorem arc_on_circle (c s c2 s2 r t : K) (hz : c ^ 2 + s ^ 2 = 1) (hc2 : c2 = 2 * c ^ 2 - 1)
+    (hs2 : s2 = 2 * s * c)
+    (hW : (1 - t) ^ 2 + 2 * t * (1 - t) * c + t ^ 2 ≠ 0) :
+    (r * ((1 - t) ^ 2 * 1 + 2 * t * (1 - t) * c + t ^ 2 * c2) / ((1 - t) ^ 2 + 2 * t * (1 - t) * c + t ^ 2)) ^ 2
+      + (r * ((1 - t) ^ 2 * 0 + 2 * t * (1 - t) * s + t ^ 2 * s2) / ((1 - t) ^ 2 + 2 * t * (1 - t) * c + t ^ 2)) ^ 2
+      = r ^ 2 := by
+  have h := arc_segment_on_circle 1 0 c s r ((1 - t) ^ 2) (2 * t * (1 - t)) (t ^ 2) (by ring) hz (by ring)
+  have hc2' : c2 = c ^ 2 - s ^ 2 := by rw [hc2]; linear_combination hz
+  subst hc2' hs2
+  rw [div_pow, div_pow, ← add_div, div_eq_iff (pow_ne_zero 2 hW)]
+  linear_combination h
+
+/-- the arc starts at `(r, 0)` and ends at `r·(cos α, sin α)` -/
+theorem arc_endpoints (c c2 s s2 r : K) :
+    (r * ((1 - 0) ^ 2 * 1 + 2 * 0 * (1 - 0) * c + 0 ^ 2 * c2) / ((1 - 0) ^ 2 + 2 * 0 * (1 - 0) * c + 0 ^ 2) = r ∧
+     r * ((1 - 0) ^ 2 * 0 + 2 * 0 * (1 - 0) * s + 0 ^ 2 * s2) / ((1 - 0) ^ 2 + 2 * 0 * (1 - 0) * c + 0 ^ 2) = (0 : K)) ∧
+    (r * ((1 - 1) ^ 2 * 1 + 2 * 1 * (1 - 1) * c + 1 ^ 2 * c2) / ((1 - 1) ^ 2 + 2 * 1 * (1 - 1) * c + 1 ^ 2) = r * c2 ∧
+     r * ((1 - 1) ^ 2 * 0 + 2 * 1 * (1 - 1) * s + 1 ^ 2 * s2) / ((1 - 1) ^ 2 + 2 * 1 * (1 - 1) * c + 1 ^ 2) = r * s2) := by
+  refine ⟨⟨?_, ?_⟩, ?_, ?_⟩ <;> simp
+
+/-- **quarter_annulus**: with `w = 1/√2` (only `2w² = 1` is used), radial hat functions
+`L0 + L1 = 1` and angular basis values with `b1² = 4·b0·b2`, the point lies on the circle of
+radius `L0·r1 + L1·r2`. -/
+theorem quarter_annulus_radius (r1 r2 w L0 L1 b0 b1 b2 : K) (hw : 2 * w ^ 2 = 1)
+    (hb : b1 ^ 2 = 4 * b0 * b2) :
+    (L0 * (b0 * (r1 * 1) + b1 * (r1 * w) + b2 * (0 * 1)) + L1 * (b0 * (r2 * 1) + b1 * (r2 * w) + b2 * (0 * 1))) ^ 2
+      + (L0 * (b0 * (0 * 1) + b1 * (r1 * w) + b2 * (r1 * 1)) + L1 * (b0 * (0 * 1) + b1 * (r2 * w) + b2 * (r2 * 1))) ^ 2
+      = (L0 * r1 + L1 * r2) ^ 2 * (b0 * 1 + b1 * w + b2 * 1) ^ 2 := by
+  have h2 : (2 : K) ≠ 0 := by
+    intro h
+    have : (2 : K) * w ^ 2 = 0 := by rw [h]; ring
+    rw [hw] at this
+    exact one_ne_zero this
+  apply mul_left_cancel₀ h2
+  linear_combination ((L0 * r1 + L1 * r2) ^ 2 * b1 ^ 2) * hw + ((L0 * r1 + L1 * r2) ^ 2) * hb
+
+/-- `circular_arc_5pt / 7pt`, `circle`, `semicircle`, `disk` boundary: every double-knot
+segment is one `arc_segment_on_circle` instance (start direction `u` = previous end point,
+`z` = half the segment angle) *provided* the active B-splines of a degree-2 knot vector with
+double interior knots are the Bernstein polynomials of the segment.  That last fact is a
+statement about the Cox–de Boor recursion (C02) and is not proved here. -/
+def arcs_full : Prop :=
+  ∀ (K : Type) [Field K] (nseg : Nat) (a b c s r : K) (_ : a ^ 2 + b ^ 2 = 1) (_ : c ^ 2 + s ^ 2 = 1)
+    (N : Nat → K → K) (_ : ∀ t, (N 1 t) ^ 2 = 4 * N 0 t * N 2 t), nseg > 0 →
+    ∀ t, (r * (N 0 t * a + N 1 t * (a * c - b * s) + N 2 t * (a * (c ^ 2 - s ^ 2) - b * (2 * s * c)))) ^ 2
+      + (r * (N 0 t * b + N 1 t * (a * s + b * c) + N 2 t * (a * (2 * s * c) + b * (c ^ 2 - s ^ 2)))) ^ 2
+      = r ^ 2 * (N 0 t + N 1 t * c + N 2 t) ^ 2
+
+/-- the per-segment statement holds (what is *not* proved is that the library's 5/7-point
+knot vectors produce Bernstein values on each span) -/
+theorem arcs_partial : arcs_full := by
+  intro K _ _ a b c s r hu hz N hN _ t
+  exact arc_segment_on_circle a b c s r (N 0 t) (N 1 t) (N 2 t) hu hz (hN t)
+
+/-! ## non-vacuity -/
+
+example : ((3 : ℚ) / 5) ^ 2 + (4 / 5) ^ 2 = 1 := by norm_num
+example : (2 * ((1 : ℚ) / 2) * (1 - 1 / 2)) ^ 2 = 4 * (1 - 1 / 2) ^ 2 * (1 / 2) ^ 2 := by norm_num
+example : (1 - (1 / 2 : ℚ)) ^ 2 + 2 * (1 / 2) * (1 - 1 / 2) * (3 / 5) + (1 / 2) ^ 2 ≠ 0 := by norm_num
+/-- a row that sums to one and fits: hat functions at `x = 1/4` on 3 dofs -/
+example : PU [((3 : Nat), fun i => if i = 0 then (3 / 4 : ℚ) else if i = 1 then 1 / 4 else 0)] := by
+  intro p hp
+  simp only [List.mem_singleton] at hp
+  subst hp
+  simp [sumTo]
+  norm_num
+
 end Pyiga.Props.C07
